@@ -8,6 +8,10 @@
 // (1 worker, low-memory off) in rows, totals and hit count; the reference run must equal the
 // independent query oracle.
 //
+// Part A' (shared runner): the queries of a case are additionally executed concurrently on ONE
+// engine.QueryRunner (the API server serves all parallel requests through a single runner); every
+// result must equal the query's own reference run.
+//
 // Part B (termination): databases with N tiny one-block days (N up to several thousand) are queried
 // by a separate, un-hooked process pinned to one CPU (`taskset -c 0 <self> -role c11-query ...`, so
 // runtime.NumCPU()==1 and the engine uses a single worker). The child must finish within a generous
@@ -20,6 +24,7 @@ package c11
 
 import (
 	"bytes"
+	"context"
 	"encoding/json"
 	"fmt"
 	"os"
@@ -84,7 +89,7 @@ func init() {
 		NumCases: func(tier, variant string) int { return nEquiv(tier, variant) + len(dayCounts(tier, variant)) },
 		Variants: func(tier string) []string { return []string{"default", "race"} },
 		Run:      run,
-		Require: []string{"config_runs", "config_runs_nontrivial", "runs_lowmem", "runs_workers_16", "runs_gomaxprocs_1", "queries_multi_workload",
+		Require: []string{"shared_runner_concurrent_queries", "config_runs", "config_runs_nontrivial", "runs_lowmem", "runs_workers_16", "runs_gomaxprocs_1", "queries_multi_workload",
 			"termination_children", "termination_days_over_channel_capacity"},
 		CaseTimeout: 400 * time.Second,
 	})
@@ -188,6 +193,14 @@ func runEquiv(c *fw.Case) {
 	if c.Variant == "race" {
 		nq = 4
 	}
+	type refRun struct {
+		q     c08.Query
+		canon rdr.Canon
+	}
+	var refs []refRun
+	defer func() {
+		runShared(c, dbPath, db.Summary(), len(refs), func(i int) (c08.Query, rdr.Canon) { return refs[i].q, refs[i].canon })
+	}()
 	for qi := 0; qi < nq; qi++ {
 		q := rdr.SafeQuery(r, db, rdr.QueryOpts{FullRange: qi%2 == 0})
 		// number of day directories per selected interface inside the range
@@ -222,6 +235,7 @@ func runEquiv(c *fw.Case) {
 			c.Violatef("reference_run_vs_oracle|"+c08.CondClass(q), "db{%s} %s | %s: oracle vs result: %s", db.Summary(), q.Describe(), refCf, d)
 			continue
 		}
+		refs = append(refs, refRun{q, refCanon})
 		if qi == 0 {
 			c.Sample(map[string]any{"db": db.Summary(), "encoder": enc.String(), "query": q.Describe(), "rows": len(refCanon.Rows), "day_dirs_in_range": maxDirs,
 				"configs": "workers{1,2,3,4,8,16} x lowmem{off,on} x 2 reps (seeded GOMAXPROCS{1,4,16}, noise goroutines)"})
@@ -257,6 +271,69 @@ func runEquiv(c *fw.Case) {
 						}
 						c.Violatef("differs_from_reference_run|"+feat, "db{%s} %s: [%s] vs [%s]: %s", db.Summary(), q.Describe(), refCf, cf, d)
 					}
+				}
+			}
+		}
+	}
+}
+
+// runShared executes the n queries of a case concurrently on ONE engine.QueryRunner, the way the API
+// server serves parallel requests (it holds a single runner), several rounds with different worker
+// counts; every result must equal the query's own single-threaded reference run.
+func runShared(c *fw.Case, dbPath, dbSummary string, n int, get func(i int) (c08.Query, rdr.Canon)) {
+	if n < 2 {
+		return
+	}
+	ensure := func() { eng.Run(dbPath, eng.Args("sip", "eth0", "", 1, 2)) } // log setup as in eng.Run
+	ensure()
+	runner := engine.NewQueryRunner(dbPath)
+	for round := 0; round < 3; round++ {
+		prevW := engine.VerifSetNumProcessingUnits([]int{1, 4, 16}[round])
+		type out struct {
+			i     int
+			canon rdr.Canon
+			err   error
+			pmsg  string
+		}
+		res := make(chan out, n)
+		var wg sync.WaitGroup
+		for i := 0; i < n; i++ {
+			i := i
+			q, _ := get(i)
+			a := eng.Args(q.Type, q.Ifaces, q.Cond, q.Spec.First, q.Spec.Last)
+			a.LowMem = (i+round)%2 == 1
+			wg.Add(1)
+			go func() {
+				defer wg.Done()
+				o := out{i: i}
+				defer func() {
+					if r := recover(); r != nil {
+						o.pmsg = fmt.Sprint(r)
+					}
+					res <- o
+				}()
+				r, err := runner.Run(context.Background(), a)
+				if err != nil {
+					o.err = err
+					return
+				}
+				o.canon = rdr.Canonical(r, q.Spec)
+			}()
+		}
+		wg.Wait()
+		close(res)
+		engine.VerifSetNumProcessingUnits(prevW)
+		for o := range res {
+			q, want := get(o.i)
+			c.Count("shared_runner_concurrent_queries", 1)
+			switch {
+			case o.pmsg != "":
+				c.Violatef("shared_runner|panic", "db{%s} %s run concurrently with %d other queries on one QueryRunner: panic: %s", dbSummary, q.Describe(), n-1, firstLines(o.pmsg, 6))
+			case o.err != nil:
+				c.Violatef("shared_runner|query_error", "db{%s} %s run concurrently with %d other queries on one QueryRunner: error: %v", dbSummary, q.Describe(), n-1, o.err)
+			default:
+				if d := rdr.DiffCanon(want, o.canon); d != "" {
+					c.Violatef("shared_runner|differs_from_reference_run", "db{%s} %s run concurrently with %d other (different) queries on one shared QueryRunner differs from its own single run: %s", dbSummary, q.Describe(), n-1, d)
 				}
 			}
 		}
